@@ -4,6 +4,7 @@ import Autog.Lemmas.NsInitLayersKahn
 import Autog.Lemmas.LongestPath
 import Autog.Lemmas.Frame
 import Autog.Model.Pipeline
+import Autog.Lemmas.LayersPipeline
 /-! # C03 — layers are horizontal bands and edges flow downward
 
     (ii) Bands: theorems about the model function `assignYCoords` (Autog/Model/Phase4.lean; compared with the real
@@ -145,6 +146,49 @@ theorem C03_public_bands (cfg : Cfg) (g3 g4 g5 : G) (loops : List Nat) (hn : (g3
   simp only [Node.geom, Prod.mk.injEq] at hg
   rw [hg.2.2.1, hy]
   simp [layerYs, hlay]
+
+/-- END TO END, nothing assumed but that the composed model returns: for a component with at least two nodes — any graph, both
+    breakers, both layerers, the exact ordering model, any of the five positioners, any modelled router — there is a layered state
+    `g4` (the one phase 4 returned) such that the final state has exactly its layer lists and every node of the i-th list carries the
+    i-th band Y `layerYs`; the well-formedness of the layer lists, assumed by `C03_band_y`, is itself a theorem about the pipeline
+    (`layersWF_upto_phase4`) -/
+theorem C03_layoutComponent_bands (cfg : Cfg) (c : G × List Nat) (gf : G) (h2n : 2 ≤ c.1.nodes.size)
+    (h : layoutComponent (fun g => (orderWMedianP 24 g).map (·.1)) cfg c = .ok gf) :
+    ∃ g4 : G, LayersWF g4 ∧ gf.layers = g4.layers ∧
+      ∀ (i : Nat) (hi : i < g4.layers.toList.length), ∀ n ∈ (g4.layers.toList[i]).nodes,
+        (gf.node n).y = (layerYs cfg.ls g4)[i]'(by rw [layerYs_length]; exact hi) := by
+  unfold layoutComponent at h
+  simp only [bind, Except.bind] at h
+  cases h1 : phase1 cfg.p1 c.1 with
+  | error e => rw [h1] at h; cases h
+  | ok g1 =>
+    rw [h1] at h; simp only at h
+    cases h2 : phase2Model cfg g1 with
+    | error e => rw [h2] at h; cases h
+    | ok g2 =>
+      rw [h2] at h; simp only at h
+      cases h3 : phase3Model (fun g => (orderWMedianP 24 g).map (·.1)) g2 with
+      | error e => rw [h3] at h; cases h
+      | ok g3 =>
+        rw [h3] at h; simp only at h
+        cases h4 : phase4Model cfg g3 with
+        | error e => rw [h4] at h; cases h
+        | ok g4 =>
+          rw [h4] at h; simp only at h
+          cases h5 : phase5 cfg.p5 cfg.ls g4 with
+          | error e => rw [h5] at h; cases h
+          | ok g5 =>
+            rw [h5] at h
+            simp only [pure, Except.pure, Except.ok.injEq] at h
+            subst h
+            have hwf4 := layersWF_upto_phase4 cfg g1 g2 g3 g4 h2 h3 h4
+            have hsz : c.1.nodes.size ≤ g3.nodes.size :=
+              (statEq_upto_phase3 _ (fun g g' hg => statEq_orderWMedianP 24 g g' hg) cfg c.1 g1 g2 g3 h1 h2 h3).size
+            have hn : (g3.nodes.size == 1) = false := by
+              rw [beq_eq_false_iff_ne]; omega
+            refine ⟨g4, hwf4, ?_, fun i hi n hnm => ?_⟩
+            · exact (GeomEq.trans (phase5_geom _ _ _ _ h5) (postProcess_geom g5 c.2)).layers
+            · exact (C03_public_bands cfg g3 g4 g5 c.2 hn h4 hwf4 h5 i hi).2 n hnm
 
 /-! non-vacuity -/
 def exG3 : G :=
